@@ -115,12 +115,17 @@ class World:
         self.cmds: dict[int, DatasetTransmitCommand] = {}
 
     def close(self):
-        with self.cond:
-            for h in self.hosts:
-                for f, _, _ in self.pool[h].pending:
-                    if not f.done():
-                        f.cancel()
-            self.cond.notify_all()
+        # let every loop thread that is still blocked in wait() run to its end against THIS world's store
+        for h in self.hosts:
+            t = self.loop_thread[h]
+            if isinstance(t, threading.Thread) and t.is_alive():
+                DS.shm_client = self.store[h].client()
+                with self.cond:
+                    for f, _, _ in self.pool[h].pending:
+                        if not f.done():
+                            f.cancel()
+                    self.cond.notify_all()
+                t.join(10)
         (C.get_context, C.zmq, C.time, DS.time_ns, DS.wait, DS.shm_client, DS.shm_api.publish_client_port,
          DS.logging.config.dictConfig) = self._old
 
@@ -240,8 +245,8 @@ class World:
             except Exception as e:
                 f.set_exception(e)
             self.pool[h].pending.remove(ent)
-            if self.loop_thread[h] is None:
-                self.srv[h].maybe_clean()
+            # (the loop thread, if any, is parked inside wait(): registering the result now or after the wait is the same)
+            self.srv[h].maybe_clean()
             with self.cond:
                 self.cond.notify_all()
         elif act == "Loop":
@@ -252,7 +257,10 @@ class World:
                 to, fr = self._find(f)
                 self.net.flight[to].remove(fr)
                 self.net.inbox[to].append(fr)
-                if f["k"] == "purge":
+                if f["k"] == "purge" and not any(not fu.done() for fu, _, _ in self.pool[h].pending):
+                    # nothing is running: the spec still takes two steps (block, finish); run the iteration at PurgeFinish
+                    self.loop_thread[h] = "deferred"
+                elif f["k"] == "purge":
                     t = threading.Thread(target=self._loop_thread, args=(h,), daemon=True)
                     self.loop_thread[h] = t
                     with self.cond:
@@ -266,7 +274,10 @@ class World:
         elif act == "PurgeFinish":
             h = last[1]
             t = self.loop_thread[h]
-            if t is not None:
+            if t == "deferred":
+                self.loop_thread[h] = None
+                self._iterate(h)
+            elif t is not None:
                 DS.shm_client = self.store[h].client()
                 with self.cond:
                     self.cond.notify_all()
